@@ -36,7 +36,7 @@ def mutate(rng, s):
 
 
 def expr_strings(rng):
-    ops = ['+', '-', '*', '/', '%', ',', ' ', '(', ')', 'eq', 'lt', 'and', 'or', 'not', '$a', '$b', '${c}', '1', '2.5', '-3', '0', 'sin(', 'min(', 'clamp(', 'random()', 'randint(', 'randint(1, 2147483647)', 'randint(0, 3000000000)', 'randint(-3000000000, 0)', 'randint(2147483647, 2147483647)', '2147483648', '-2147483649', '1e39', '0/0', 'if(', 'head(', '#r~w', '#r@tl']
+    ops = ['+', '-', '*', '/', '%', ',', ' ', '(', ')', 'eq', 'lt', 'and', 'or', 'not', '$a', '$b', '${c}', '1', '2.5', '-3', '0', 'sin(', 'min(', 'clamp(', 'random()', 'randint(', '$\u00e9a', '${\u4e2d}', '$\u03b11 + 1', '#\u00e9~w', 'f\u00e9(1)', 'randint(1, 2147483647)', 'randint(0, 3000000000)', 'randint(-3000000000, 0)', 'randint(2147483647, 2147483647)', '2147483648', '-2147483649', '1e39', '0/0', 'if(', 'head(', '#r~w', '#r@tl']
     return ' '.join(rng.choice(ops) for _ in range(rng.range(1, 12)))
 
 
